@@ -18,6 +18,7 @@ fn universe(tier: Tier) -> Vec<V> {
         V::Int(1),
         V::Int(i64::MAX),
         V::Float(-1.5),
+        V::Float(-0.0),
         V::Float(0.0),
         V::Float(0.5),
         V::Float(1.5),
@@ -237,7 +238,7 @@ fn pair_case(tier: Tier, i: usize) -> CaseResult {
 
 fn range_case(tier: Tier, i: usize) -> CaseResult {
     let ints: Vec<i64> = vec![i64::MIN, -1, 0, 1, 2, 5, i64::MAX];
-    let floats: Vec<f64> = vec![-1.5, 0.0, 5e-324, 0.5, 1.5, 2.0, 1e308];
+    let floats: Vec<f64> = vec![-1.5, -0.0, 0.0, 5e-324, 0.5, 1.5, 2.0, 1e308];
     let is_int = i % 2 == 0;
     let idx = i / 2;
     let mut exps = vec![];
@@ -261,7 +262,7 @@ fn range_case(tier: Tier, i: usize) -> CaseResult {
     } else {
         let a = floats[idx % floats.len()];
         doc = format!("{{\"x\":{}}}", crate::val::fmt_float(a));
-        let bounds: Vec<f64> = floats.iter().copied().filter(|x| *x >= 0.0).collect();
+        let bounds: Vec<f64> = floats.iter().copied().filter(|x| !x.is_sign_negative()).collect();
         for lo in &bounds {
             for hi in &bounds {
                 for (li, ui) in [(true, true), (false, false), (true, false), (false, true)] {
@@ -418,10 +419,10 @@ pub fn run(tier: Tier, seed: u64) -> i32 {
             "negative floats and i64::MIN appear only on the document side (not expressible as literals)".into(),
         ],
     };
-    execute("C13", tier, seed, spec, &replay, &|run: &Run| {
+    execute("C13", tier, seed, spec, &replay, &|run: &Session| {
         let n = universe(tier).len();
         run.run_enum("pairs", n * 2, |i| pair_case(tier, i));
-        run.run_enum("ranges", 14, |i| range_case(tier, i));
+        run.run_enum("ranges", 16, |i| range_case(tier, i));
         run.run_random("in-list", tier.pick(3_000, 60_000), 120, |u| in_list_case(u, tier));
         run.run_random("regex", tier.pick(6_000, 200_000), 160, regex_case);
     })
